@@ -751,3 +751,7 @@ impl gmsol_model::PerpMarketMut<{ constants::MARKET_DECIMALS }> for RevertibleMa
         })
     }
 }
+
+/// Verification hook (only with `--cfg gmsol_verif`).
+#[cfg(gmsol_verif)]
+pub mod verif;
